@@ -5,7 +5,7 @@ from ..core import sym
 from ..core.expand import u, call_name, get_arg, bind_args, Expander, is_marker, phi_alternatives
 from ..core.loader import Inconclusive, const_value, parents
 from .common import (aliases_of, literal_dnf, returns, all_nodes, callee, strip_shape, calls_in, guards_of, stmt_of, loops_around, kw,
-                     find_assignments, result_fields, in_loop)
+                     find_assignments, result_fields, in_loop, is_none_test)
 
 EXPLANATION = (
     "Decided: D1 every test that draws random numbers takes `seed`, reaches numpy.random.seed(<that parameter>) under "
@@ -124,6 +124,19 @@ def rule_seed(ck):
             continue
         m, ok = bind_args(P.func(k), calls[0])
         miss = [p for p in ('seed', 'random_numbers', 'num_simulations') if not (p in m and isinstance(m[p], ast.Name) and m[p].id == p and p in g.params)]
+        # unchanged also means: not rebound on the way (`seed = int(seed) if seed else None` turns seed 0 into "no seed")
+        def harmless(a, p):
+            # `if p is not None: p = int(p)`: the same value for every argument the kernel accepts, None stays None
+            v = a.value if isinstance(a, ast.Assign) else None
+            return isinstance(v, ast.Call) and u(v.func) in ('int', 'operator.index') and len(v.args) == 1 and u(v.args[0]) == p and \
+                any((not pol) and is_none_test(t, p) or (pol and is_none_test(ast.UnaryOp(op=ast.Not(), operand=t), p)) for t, pol in guards_of(a, g.node))
+        rebound = [p for p in ('seed', 'random_numbers', 'num_simulations') if p not in miss and [a for a in find_assignments(g, p) if not harmless(a, p)]]
+        if rebound:
+            a = find_assignments(g, rebound[0])[0]
+            o.fail('%s rebinds `%s` before handing it to the kernel (`%s`): the kernel no longer sees the caller\'s value - a conversion by '
+                   'truthiness drops seed 0, any other conversion makes the result a function of something else than the given %s'
+                   % (g.short, rebound[0], u(a)[:70], rebound[0]))
+            continue
         (o.fail('%s not forwarded unchanged to the kernel: the result is no function of the caller\'s %s' % (', '.join(miss), '/'.join(miss))) if miss else o.ok())
 
 
@@ -491,4 +504,23 @@ def rule_catalog_seeded(ck):
              o.fail('the resampled catalog has size `%s`, it must hold exactly the observed number of events int(N_obs)' % txt[:70]))
 
 
-RULES = [rule_seed, rule_rng_sources, rule_sampling, rule_weights, rule_reset, rule_event_numbers, rule_quantile, rule_catalog_seeded]
+def rule_precision(ck):
+    """D4.double: the cumulative weights are built from the rates in the precision they were supplied in: an interval boundary F_k
+    rounded to float32 moves by up to 6e-8 F_k, so a uniform number next to it is placed in the neighbouring bin"""
+    from .common import rule_double_precision
+    ck.clause('D4')
+    rule_double_precision(ck, 'C06-D4.double',
+                          modules=('csep.core.poisson_evaluations', 'csep.core.binomial_evaluations', 'csep.core.brier_evaluations', 'csep.core.forecasts'),
+                          what='the rates that become the sampling weights')
+
+
+def rule_rates_view(ck):
+    """the weights are computed from forecast.data / its marginals: the scaled view is a fresh array (shared C11-D1, C11-D4)"""
+    from . import c11
+    ck.clause('shared C11-D1/D4 (the scaled view and its marginals)')
+    c11.rule_scaling(ck)
+    c11.rule_axes(ck)
+
+
+RULES = [rule_seed, rule_rng_sources, rule_sampling, rule_weights, rule_reset, rule_event_numbers, rule_quantile, rule_catalog_seeded, rule_precision,
+         rule_rates_view]
